@@ -13,7 +13,11 @@ RULE = ("finite domain enumerated completely: (a) firmware - unmodified mframe_s
         "logical channel) following TS 45.002 clause 7 naming; for block channels the set of block start frames mod the "
         "layout period must equal the frames the layout marks with burst id 0; for TCH traffic and its SACCH the frames the "
         "layout gives to the channel; inside every layout burst ids advance cyclically by +1 mod 4 (mod 2 for TCH/H), every "
-        "channel used is in lchan_mask, the returned layout is valid for the TN and the requested combination, period > 0. "
+        "channel used is in lchan_mask, the returned layout is valid for the TN and the requested combination, period > 0; "
+        "(c) continuous operation: seven realistic task sets (up to all 29 tasks) enabled once and walked frame by frame for a cycle "
+        "+ 3000 frames across the hyperframe wrap without any reset - the triggers must be the union of the per-task triggers; "
+        "(d) trxcon lookup histories: descending order, repeated lookups and a generated sequence (VERIF_SEED; runs on one combination / one "
+        "timeslot) - every lookup must return what the same lookup returned in the first pass. "
         "Each compared row / table row is a distinct evaluation; non-trivial = all rows (distinct points of the finite domain).")
 LEVEL = "exploration"
 ASSUMPTIONS = ["the correspondence table (which task is which logical channel) is fixed by the harness from the 3GPP names",
@@ -85,10 +89,10 @@ def build(ctx):
     return exe_fw, exe_tc
 
 
-def run(exe):
+def run(exe, args=()):
     env = dict(os.environ)
     env.update(cbuild.SAN_ENV)
-    return subprocess.run([exe], capture_output=True, text=True, env=env)
+    return subprocess.run([exe] + [str(a) for a in args], capture_output=True, text=True, env=env)
 
 
 def check(ctx, rec):
@@ -100,7 +104,7 @@ def check(ctx, rec):
             sigs.add(sig)
             fails.append(Failure("tables", case, sig, msg))
 
-    rf, rt = run(exe_fw), run(exe_tc)
+    rf, rt = run(exe_fw), run(exe_tc, [ctx.seed, 300000 if ctx.tier == "quick" else 20000000])
     if rf.returncode != 0:
         fail("c11:firmware-driver-crash", rf.stderr[-600:], {"driver": "fw"})
         return fails
@@ -159,6 +163,7 @@ def check(ctx, rec):
                  {"combination": ci, "mask": mask})
     # ---- trxcon tables
     E, P = {}, {}
+    n_hist = 0
     lay = {}
     table = {}
     for l in rt.stdout.splitlines():
@@ -172,6 +177,11 @@ def check(ctx, rec):
         elif t[0] == "L":
             lay[(int(t[1]), int(t[2]))] = None if t[3] == "NULL" else {"chan_config": int(t[3]), "period": int(t[4]),
                                                                       "slotmask": int(t[5], 16), "mask": int(t[6], 16), "frames": t[7] == "frames"}
+        elif t[0] == "O":
+            fail("c11:trxcon:lookup-depends-on-history", "lookup(combination %s, TN%s) right after lookup(%s, TN%s) returned another layout than the same "
+                 "lookup made first" % (t[1], t[2], t[4], t[5]), {"line": l})
+        elif t[0] == "H":
+            n_hist = int(t[1])
         elif t[0] == "F":
             table.setdefault((int(t[1]), int(t[2])), []).append((int(t[4]), int(t[5]), int(t[6]), int(t[7])))
     Ename = {v: k for k, v in E.items()}
@@ -250,7 +260,7 @@ def check(ctx, rec):
                              task, sset, "/SACCH" if sacch else "", lname, tn, d, ch, per,
                              [x for x in fwf if x not in lay_frames][:6] or fwf[:6], [x for x in lay_frames if x not in fwf][:6] or lay_frames[:6]),
                          {"task": task, "set": sset, "layout": lname, "tn": tn, "dir": d, "chan": ch})
-    rec.bulk(n_trig + n_rows + n_cmp + len(lay) + n_walk, n_rows + n_cmp, {"fw-continuous-walk-triggers": n_walk, "fw-triggers": n_trig, "trxcon-table-rows": n_rows,
+    rec.bulk(n_trig + n_rows + n_cmp + len(lay) + n_walk + n_hist, n_rows + n_cmp, {"trxcon-lookup-history-steps": n_hist, "fw-continuous-walk-triggers": n_walk, "fw-triggers": n_trig, "trxcon-table-rows": n_rows,
                                                                  "correspondence-comparisons": n_cmp, "layout-lookups": len(lay)}, samples)
     rec.exhaustive = True
     return fails
